@@ -894,9 +894,9 @@ class _Inliner:
             root = st.test
         else:
             return None
-        if root is None or self._call_of(root) is not None and self.resolve(self._call_of(root), cls, fn_stack, helpers) is not None \
-                and not self._is_factory(self._call_of(root), cls, fn_stack, helpers):
-            return None
+        if root is None or (not isinstance(st, ast.If) and self._call_of(root) is not None and self.resolve(self._call_of(root), cls, fn_stack, helpers) is not None
+                            and not self._is_factory(self._call_of(root), cls, fn_stack, helpers)):
+            return None          # (a statement that IS the call is the statement inliner's business; an `if` test that is the call is taken out here)
         FOUND, CLEAN, DIRTY = "found", "clean", "dirty"
         outer = self
 
@@ -2987,6 +2987,100 @@ def _named_tuples_to_tuples(modname, tree, inv):
     return n_done
 
 
+# ------------------------------------------------------------------ N24 a new dict/list subclass that only adds helper methods
+
+_CONTAINER_BASES = {"dict": dict, "list": list, "set": set}
+
+
+def _container_helper_classes(modname, tree, inv):
+    """{class name: ClassDef} for NEW classes `class K(dict)` (list, set) that define nothing but plain methods with names the base
+    type does not have, are only ever instantiated as `K()`, and whose method names are used in this module for nothing but calls"""
+    out = {}
+    if inv is None:
+        return out
+    all_defs = {}
+    for x in ast.walk(tree):
+        if isinstance(x, FUNC):
+            all_defs[x.name] = all_defs.get(x.name, 0) + 1
+    parents = {}
+    for p_ in ast.walk(tree):
+        for c in ast.iter_child_nodes(p_):
+            parents[id(c)] = p_
+    for cls in [c for c in tree.body if isinstance(c, ast.ClassDef)]:
+        if len(cls.bases) != 1 or not (isinstance(cls.bases[0], ast.Name) and cls.bases[0].id in _CONTAINER_BASES) or cls.decorator_list or cls.keywords:
+            continue
+        if any(k.startswith(f"{modname}:{cls.name}.") for k in inv):
+            continue
+        meths = [x for x in cls.body if not (isinstance(x, ast.Pass) or (isinstance(x, ast.Expr) and isinstance(x.value, ast.Constant)))]
+        if not meths or not all(isinstance(x, ast.FunctionDef) and not x.decorator_list and not x.name.startswith("__") and x.args.args and x.args.args[0].arg == "self" for x in meths):
+            continue
+        base = _CONTAINER_BASES[cls.bases[0].id]
+        names = {x.name for x in meths}
+        if names & set(dir(base)) or any(all_defs.get(n_, 0) != 1 for n_ in names):
+            continue
+        if any(isinstance(n, ast.Name) and n.id in ("super", "__class__") for x in meths for n in ast.walk(x)):
+            continue
+        inside = {id(x) for x in ast.walk(cls)}
+        ok = True
+        for x in ast.walk(tree):
+            if id(x) in inside:
+                continue
+            if isinstance(x, ast.Name) and x.id == cls.name:
+                p_ = parents.get(id(x))
+                if not (isinstance(p_, ast.Call) and p_.func is x and not p_.args and not p_.keywords):
+                    ok = False
+            elif isinstance(x, ast.Attribute) and x.attr == cls.name:
+                ok = False
+            elif isinstance(x, ast.Attribute) and x.attr in names:
+                p_ = parents.get(id(x))
+                if not (isinstance(p_, ast.Call) and p_.func is x and _simple_arg(x.value) and isinstance(x.ctx, ast.Load)):
+                    ok = False
+            elif isinstance(x, ast.Constant) and x.value in names:
+                ok = False
+        if ok:
+            out[cls.name] = cls
+    return out
+
+
+def _container_methods_as_functions(modname, tree, inv):
+    """`recv.m(a)` -> `K.m(recv, a)` for the helper methods of such a class (the inliner then treats it like any helper), see above"""
+    classes = _container_helper_classes(modname, tree, inv)
+    n = 0
+    for cname, cls in classes.items():
+        names = {x.name for x in cls.body if isinstance(x, ast.FunctionDef)}
+        inside = {id(x) for x in ast.walk(cls)}
+        for c in [x for x in ast.walk(tree) if isinstance(x, ast.Call) and id(x) not in inside and isinstance(x.func, ast.Attribute) and x.func.attr in names]:
+            recv = c.func.value
+            c.func = ast.copy_location(ast.Attribute(value=ast.Name(id=cname, ctx=ast.Load()), attr=c.func.attr, ctx=ast.Load()), c.func)
+            c.args = [recv] + c.args
+            n += 1
+    if n:
+        ast.fix_missing_locations(tree)
+    return n, set(classes)
+
+
+def _drop_emptied_containers(tree, names):
+    """after inlining: a helper class that has no method left is its base type; `K()` -> `dict()`"""
+    n = 0
+    for cls in [c for c in tree.body if isinstance(c, ast.ClassDef) and c.name in names]:
+        if any(isinstance(x, FUNC) for x in cls.body):
+            continue
+        if any(isinstance(x, ast.Attribute) and isinstance(x.value, ast.Name) and x.value.id == cls.name for x in ast.walk(tree)):
+            continue
+        base = cls.bases[0].id
+        for c in [x for x in ast.walk(tree) if isinstance(x, ast.Call) and isinstance(x.func, ast.Name) and x.func.id == cls.name]:
+            lit = {"dict": ast.Dict(keys=[], values=[]), "list": ast.List(elts=[], ctx=ast.Load())}.get(base)
+            if lit is not None:
+                _replace_node(tree, c, ast.copy_location(lit, c))
+            else:
+                c.func = ast.copy_location(ast.Name(id=base, ctx=ast.Load()), c.func)
+        tree.body[tree.body.index(cls)] = ast.copy_location(ast.Pass(), cls)
+        n += 1
+    if n:
+        ast.fix_missing_locations(tree)
+    return n
+
+
 # ------------------------------------------------------------------ N7 nested ifs without else -> one conjunction
 
 def _merge_nested_ifs(fn):
@@ -3379,6 +3473,7 @@ def normalize(modname, tree):
     inv = inventory()
     stats["context_managers"] = _rewrite_context_managers(modname, tree, inv)
     stats["named_tuples"] = _named_tuples_to_tuples(modname, tree, inv)
+    stats["container_methods"], container_classes = _container_methods_as_functions(modname, tree, inv)
     stats["properties"] = _properties_to_methods(modname, tree, inv)
     stats["decorators_applied"] = _apply_new_decorators(modname, tree, inv)
     stats["devirtualised"] = _devirtualise(modname, tree, inv)
@@ -3437,6 +3532,9 @@ def normalize(modname, tree):
         stats["inlined"] += more
         if not more and not k3:
             break
+    if container_classes:
+        stats["containers_dropped"] = _drop_emptied_containers(tree, container_classes)
+
     def _outermost(body):
         for x in body:
             if isinstance(x, FUNC):
